@@ -313,3 +313,27 @@ def _writewrapper_methods(repo):
         raise KeyError("no methods in impl fmt::Write for WriteWrapper")
     lean = "def c19WriteWrapperMethods : List (String × Bool) := [" + ", ".join("(%s, %s)" % (lean_str(a), "true" if b else "false") for a, b in rows) + "]"
     return rows, lean
+
+
+@item("C19_TRACKER_UPDATE")
+def _tracker_update(repo):
+    """how `Track` in `DynObject::render_guarded` (value/object.rs) updates its flag from the
+    result of each forwarded write: the operator in `self.failed <op> rv.is_err()`, one row per
+    forwarding method.  The model is `failed = any write failed` (`trackFailed`), i.e. `|=`."""
+    raw = read(repo, "minijinja/src/value/object.rs")
+    s = blank_comments_and_strings(raw)
+    m = re.search(r"\bfn\s+render_guarded\b", s)
+    if not m:
+        raise KeyError("render_guarded")
+    b0 = s.index("{", m.end())
+    body = s[b0:match_paren(s, b0)]
+    rows = []
+    for fm in re.finditer(r"\bfn\s+(write_\w+)\s*\(", body):
+        f0 = body.index("{", fm.end())
+        fbody = body[f0:match_paren(body, f0)]
+        ups = re.findall(r"self\s*\.\s*failed\s*(\S+?)\s*rv\s*\.\s*is_err\s*\(\s*\)", fbody)
+        rows.append((fm.group(1), ",".join(ups)))
+    if not rows:
+        raise KeyError("no forwarding methods in render_guarded")
+    lean = "def c19TrackerUpdate : List (String × String) := [" + ", ".join("(%s, %s)" % (lean_str(a), lean_str(b)) for a, b in rows) + "]"
+    return rows, lean
